@@ -107,6 +107,9 @@ type c06Gen struct {
 	Hour       bool                `json:"hour_epoch"`    // a third identifier "hour"
 	InflIdent  string              `json:"infl_ident"`
 	CsrShare   string              `json:"csr_share"` // LegacyDec raw
+	// CsrLate: CSR disabled in genesis and NO keeper-level Turnstile / CSR-contract preparation; governance enables
+	// CSR during the history and csr's own BeginBlock deploys the Turnstile inside a block
+	CsrLate bool `json:"csr_late"`
 }
 
 // ---------------------------------------------------------------- a replica
@@ -237,7 +240,7 @@ func c06GenesisBytes(a *app.Canto, k *c06Keys, g c06Gen, w *csWorld) []byte {
 	// csr
 	var cg csrtypes.GenesisState
 	cdc.MustUnmarshalJSON(gs[csrtypes.ModuleName], &cg)
-	cg.Params.EnableCsr = true
+	cg.Params.EnableCsr = !g.CsrLate
 	cg.Params.CsrShares = c06DecOf(g.CsrShare)
 	gs[csrtypes.ModuleName] = cdc.MustMarshalJSON(&cg)
 	bz, err := json.Marshal(gs)
@@ -283,15 +286,18 @@ func c06Start(name string, k *c06Keys, g c06Gen) (*c06Replica, *c06World) {
 		_, err := a.Erc20Keeper.CallEVM(ctx, eabi, k.dep, w.pairExt, true, "mint", c06Eth(p), big.NewInt(1_000_000_000))
 		c04Must(err)
 	}
-	// csr: Turnstile (what csr's BeginBlock would do in block 1) and one CSRSmartContract
-	ts, err := a.CSRKeeper.DeployTurnstile(ctx)
-	c04Must(err)
-	a.CSRKeeper.SetTurnstile(ctx, ts)
-	w.turnstile = ts
-	c0, err := a.CSRKeeper.DeployContract(ctx, c10LoadSmartContract(), ts)
-	c04Must(err)
-	w.csr0 = c0
-	w.contracts = []common.Address{w.pairCoin, w.pairExt, ts, c0}
+	w.contracts = []common.Address{w.pairCoin, w.pairExt}
+	if !g.CsrLate {
+		// csr: Turnstile (what csr's BeginBlock does in block 1 when CSR is enabled) and one CSRSmartContract
+		ts, err := a.CSRKeeper.DeployTurnstile(ctx)
+		c04Must(err)
+		a.CSRKeeper.SetTurnstile(ctx, ts)
+		w.turnstile = ts
+		c0, err := a.CSRKeeper.DeployContract(ctx, c10LoadSmartContract(), ts)
+		c04Must(err)
+		w.csr0 = c0
+		w.contracts = append(w.contracts, ts, c0)
+	}
 	return r, w
 }
 
